@@ -48,3 +48,21 @@ Example C11_example :
   ops_ok [L "/users/{id}/a"; L "/users/{id}/b"; L "/a"; L "/a/"] [L "/static/"] cs_init ops = true /\
   map fst (cs_mux (fst (cs_run cs_init ops 0))) = [L "/users/"; L "/a/"; L "/static/"].
 Proof. vm_compute. repeat split; reflexivity. Qed.
+
+(* histories in which the caller recovered from refused calls (a Handle on a pattern that is taken panics in the mux)
+   and went on using the container: the registration state is that of the history WITHOUT the refused calls, and it
+   fails iff that history fails — so C11 above speaks about these histories too *)
+Definition C11_refused_calls_statement : Prop :=
+  forall ops s k anom,
+    fst (fst (cs_run_skip s ops k anom)) = fst (cs_run s (accepted_ops ops) 0) /\
+    (snd (fst (cs_run_skip s ops k anom)) = None <-> snd (cs_run s (accepted_ops ops) 0) = None).
+Theorem C11_refused_calls : C11_refused_calls_statement.
+Proof. exact run_skip_is_run_of_accepted. Qed.
+Print Assumptions C11_refused_calls.
+
+Example C11_refused_example :
+  let ops := [(false, RAdd (L "/a") []); (false, RHandle (L "/static/") 7); (true, RHandle (L "/static/") 8);
+              (false, RRemove (L "/a"))] in
+  cs_run_skip cs_init ops 0 0 = (fst (cs_run cs_init (accepted_ops ops) 0), None, 0) /\
+  map fst (cs_mux (fst (cs_run cs_init (accepted_ops ops) 0))) = [L "/static/"].
+Proof. vm_compute. split; reflexivity. Qed.
